@@ -12,27 +12,28 @@ RULE = ('files with 1..5 dimensions of length 1..4 (one may be unlimited), 1..4 
         'subsets/orders (masked and unmasked, 1-D coordinate variables, attributes), cells = distinct integers so that any permutation '
         'shows; selectors over any subset of dimensions in random keyword order: +/- ints, slices with None/+/-/oversized '
         'start/stop/step incl. empty and reversed, index lists with repeats and negative entries, 2..3 equal-length lists (zipped); '
-        'targeted streams for int+list separated by a slice axis and zipped+int; malformed stream (unknown dimension, out-of-range '
+        'targeted streams for int+list separated by a slice axis and zipped+int (the repaired defects); malformed stream (unknown dimension, out-of-range '
         'int/list element, step 0, unequal list lengths, empty zipped lists); string form slice_dim. Every case is evaluated in Coq '
         '(model impl_slice_file and spec_slice_file, Corr/C02.v) AND by an independent numpy take/slice oracle in Python. '
         'Non-trivial = the call succeeded and at least one variable changed shape or cells.')
-TRUSTED = ['numpy mixed basic/advanced indexing, broadcasting assignment and C-order reshape are MODELLED (Model/Slice.v np_index/assign), '
-           'tied to numpy 2.5 only by the correspondence',
+TRUSTED = ['numpy single-axis indexing, basic scalar/slice indexing, ma.expand_dims/ma.concatenate, broadcasting assignment and C-order reshape are '
+           'MODELLED (Model/Slice.v take_axis/seq_take/concat_rec/assign), tied to numpy 2.5 only by the correspondence',
            'CPython slice.indices is modelled (Base/ArrFlat.v slice_indices), tied by the correspondence',
            'the independent Python oracle uses numpy.take per axis / explicit loops']
 ASSUMPTIONS = ['files are well formed (variable shapes equal their dimension lengths; a variable named like a dimension is the 1-D '
                'coordinate variable of that dimension)',
                'attributes, unlimited flags, dtype and masked-ness are checked by the Python oracle only (they are copied, not computed)']
 TECHNIQUE = 'Coq proof (induction over shapes/selectors, flat C-order arrays) + vm_compute refutation witnesses + differential correspondence'
-LEVEL_TEXT = ('Theorems (Props/C02.v, all closed under the global context) about a Gallina model of sliceDimensions over abstract cells '
-              '(a mask is part of the cell): selector normalisation stays in range (C02_selectors_in_range, C02_slice_indices_in_range); the orthogonal '
-              'specification has the stated size/rank and element-wise meaning for all ranks/shapes/selectors (C02_spec_elements, C02_spec_single_cell, '
-              'C02_spec_shape); unselected variables are identical (C02_unselected_variable_identical); broadcast-or-reshape assignment keeps cell order when '
-              'sizes agree (C02_assignment_keeps_cell_order); on every variable whose advanced indices (ints+list) are not separated by a slice axis the code '
-              'path equals the orthogonal selection (C02_slice_var_partial); the zipped point loop equals the pointwise selection when the first list is on the '
-              "variable's first axis, no int selector, no masked cell (C02_zip_var_partial; general axis position left UNPROVED in a comment). Full statements "
-              'refuted by vm_compute witnesses that replay on the library = known findings (C02_slice_var_refuted, C02_file_refuted, C02_zip_var_refuted, '
-              'C02_zip_axis_error_refuted, C02_zip_mask_refuted). Tie H: whole-file model (impl_slice_file) vs library on every generated case incl. errors.')
+LEVEL_TEXT = ('Theorems (Props/C02.v, all closed under the global context) about a Gallina model of sliceDimensions AS REPAIRED by '
+              'fixes/C02-slice-orthogonal-per-axis.patch, C02-zip-keep-masks.patch, C02-zip-with-ints.patch, over abstract cells (a mask is part of the '
+              'cell): selector normalisation stays in range (C02_selectors_in_range, C02_slice_indices_in_range); the orthogonal specification has the '
+              'stated size/rank and element-wise meaning (C02_spec_elements, C02_spec_single_cell, C02_spec_shape); unselected variables are identical '
+              '(C02_unselected_variable_identical); broadcast-or-reshape assignment keeps cell order when sizes agree (C02_assignment_keeps_cell_order); '
+              'FULL STRENGTH: the per-axis selection loop is the orthogonal selection for every rank/shape/selector arrangement (C02_per_axis_loop, '
+              'C02_slice_var) and the zipped point loop is the pointwise selection for the first list at any axis, with int selectors, masked or not '
+              '(C02_zip_var, C02_zip_spec_size). Remaining defect refuted by vm_compute and listed as known finding: two or more empty lists raise '
+              '(C02_zip_empty_lists_refuted). Tie H: whole-file model (impl_slice_file) vs library on every generated case incl. errors; the witnesses '
+              'of the repaired defects run first from corpus/C02/.')
 LEVEL_NOTE = ('Trusted: Coq kernel + vm_compute; harness; numpy/CPython indexing semantics as modelled. IOAPI wrapper (metadata fix-ups) and '
               'multi-dimensional index arrays (newdims with ndim>1) not modelled.')
 
@@ -443,24 +444,8 @@ def _expected(case):
 
 
 def _region_py(case):
-    lists = [dn for dn, s in case['kws'] if 'l' in s]
-    ints = [dn for dn, s in case['kws'] if 'i' in s]
-    if len(lists) > 1 and all(len(s['l']) == 0 for dn, s in case['kws'] if 'l' in s):
-        return 3
-    reg = 0
-    for v in case['vars']:
-        vl = [n for n in v['dims'] if n in lists]
-        vi = [n for n in v['dims'] if n in ints]
-        if len(lists) > 1 and len(vl) > 1:
-            if vi:
-                reg = 2
-            elif v.get('masked') and any(v['mask']) and reg == 0:
-                reg = 4
-        elif vl and vi:
-            adv = [k for k, n in enumerate(v['dims']) if n in vl or n in vi]
-            if any(v['dims'][k] not in vl and v['dims'][k] not in vi for k in range(adv[0], adv[-1] + 1)):
-                return 1
-    return reg
+    ls = [s['l'] for dn, s in case['kws'] if 'l' in s]
+    return 1 if len(ls) > 1 and all(len(l) == 0 for l in ls) else 0
 
 
 def py_check(case, obs):
